@@ -269,6 +269,55 @@ func TestCheck(t *testing.T) {
 				r.Violation("wrongctx/accepted", "decryption with a different context returned a plaintext", w)
 			}
 		}
+		// the same ciphertext SLICE presented several times (the helper above hands
+		// every call a private copy): failed attempts with another key / context and
+		// an earlier successful attempt must not spoil a later matching attempt
+		{
+			shared := g2util.Clone(c.ct)
+			type att struct {
+				key int
+				ctx string
+				ok  bool
+			}
+			seq := []att{{c.key, c.ctx, true}, {c.key, c.ctx, true}}
+			if len(c.msg) < 2000 {
+				pre := []att{}
+				if len(auxs[i].otherKeys) > 0 {
+					pre = append(pre, att{auxs[i].otherKeys[0], c.ctx, false})
+				}
+				if len(auxs[i].wctx) > 0 {
+					pre = append(pre, att{c.key, auxs[i].wctx[0], false})
+				}
+				seq = append(pre, seq...)
+			}
+			for k, a := range seq {
+				var out []byte
+				var derr error
+				dpk, dpd := vf.Try(func() { out, derr = peer.DecryptWithPrivKey(pool[a.key].Priv, a.ctx, shared) })
+				r.Count("decrypt_same_slice_again", 1)
+				if dpk {
+					r.Violation("reuse/panic", "decrypting the same ciphertext slice again panicked: "+dpd, c.witness(pool))
+					break
+				}
+				if !a.ok {
+					continue // judged above on private copies
+				}
+				if derr != nil || !bytes.Equal(out, c.msg) {
+					w := c.witness(pool)
+					w["attempt"] = k
+					w["attempts"] = fmt.Sprintf("%+v", seq)
+					w["ciphertext_modified_by_earlier_call"] = !bytes.Equal(shared, c.ct)
+					if derr != nil {
+						w["err"] = derr.Error()
+					}
+					r.Violation("reuse/matching-attempt-fails-after-earlier-attempt", "a ciphertext that decrypts with the matching key and context no longer does after earlier decrypt calls on the same slice", w)
+					break
+				}
+			}
+			if !bytes.Equal(shared, c.ct) {
+				r.Count("decrypt_modified_its_input", 1)
+			}
+		}
 	}
 	// messages >= 2000 bytes run in the background, overlapping phases A-C
 	// (they take seconds each under the race detector); joined before Finish.
